@@ -304,7 +304,7 @@ SCALARS = [
     ['s', 'int', -3], ['s', 'str', ''],
 ]
 
-DEFAULT_TYPES = [('TA', 4), ('TB', 3), ('TC', 3), ('TD', 2), ('TN', 2), ('TN1', 1), ('TN2', 2), ('TP', 2), ('TF', 1), ('TZ', 1)]
+DEFAULT_TYPES = [('TA', 4), ('TB', 3), ('TC', 3), ('TD', 2), ('TN', 2), ('TN1', 1), ('TN2', 2), ('TP', 2), ('TF', 1), ('TZ', 1), ('TW', 1)]
 
 
 def wrap_refs(st: Stream, refs: list) -> list:
